@@ -6,6 +6,9 @@ HARNESSES = [
     ("subst", ["subst.cxx"], "plain"),
     ("make", ["make.cxx"], "plain"),
     ("visit", ["visit.cxx"], "plain"),
+    ("seqs", ["seqs.cxx"], "plain"),
+    ("seqs", ["seqs.cxx"], "asan"),
+    ("make", ["make.cxx"], "asan"),
     ("scopes", ["scopes.cxx"], "plain"),
     ("regions", ["regions.cxx"], "plain"),
     ("strings", ["strings.cxx"], "plain"),
